@@ -5,37 +5,59 @@ pub use pavex_macros_shim::{config, methods, post_process, pre_process, request_
 pub struct Response;
 impl Response { pub fn internal_server_error() -> Self { Response } }
 pub mod time {
-    /// Verification shim for `jiff::Timestamp`: whole seconds on a symbolic clock. `now()` returns
-    /// the instant the harness last set with `verif_set_now` (time is a harness-controlled
-    /// variable: it stands still during one store operation and advances arbitrarily between two).
+    /// Verification shim for `jiff::Timestamp` / `SignedDuration`: a symbolic clock with a resolution of
+    /// a quarter of a second (`TICKS_PER_SEC` ticks per second), so that code which rounds to whole
+    /// seconds is distinguishable from code that does not. `now()` returns the instant the harness last
+    /// set with `verif_set_now` (time is a harness-controlled variable: it stands still during one store
+    /// operation and advances arbitrarily between two). Durations are floored to ticks (the harnesses
+    /// only use multiples of 250 ms); the API subset and names are jiff's.
+    pub const TICKS_PER_SEC: i64 = 4;
+    const TICK_NANOS: u32 = 250_000_000;
+    /// a `std::time::Duration` in ticks (no division: `Duration` keeps seconds and nanoseconds apart)
+    pub fn verif_ticks(d: std::time::Duration) -> i64 {
+        let n = d.subsec_nanos();
+        let q = if n < TICK_NANOS { 0 } else if n < 2 * TICK_NANOS { 1 } else if n < 3 * TICK_NANOS { 2 } else { 3 };
+        (d.as_secs() as i64) * TICKS_PER_SEC + q
+    }
+    /// ticks -> `Duration` (non-negative ticks)
+    pub fn verif_duration(t: i64) -> std::time::Duration {
+        let t = t as u64;
+        std::time::Duration::new(t >> 2, ((t & 3) as u32) * TICK_NANOS)
+    }
     #[derive(Clone, Copy, Debug, PartialEq, Eq, PartialOrd, Ord)]
     pub struct Timestamp(pub i64);
     static mut NOW: i64 = 0;
+    /// set the clock (in ticks)
     pub fn verif_set_now(t: i64) { unsafe { NOW = t } }
     impl Timestamp {
         pub const UNIX_EPOCH: Timestamp = Timestamp(0);
         pub const MAX: Timestamp = Timestamp(i64::MAX);
         pub const MIN: Timestamp = Timestamp(i64::MIN);
         pub fn now() -> Timestamp { Timestamp(unsafe { NOW }) }
-        pub fn as_second(&self) -> i64 { self.0 }
-        pub fn from_second(s: i64) -> Result<Timestamp, ()> { Ok(Timestamp(s)) }
-        pub fn checked_add(self, d: std::time::Duration) -> Result<Timestamp, ()> { self.0.checked_add(d.as_secs() as i64).map(Timestamp).ok_or(()) }
-        pub fn checked_sub(self, d: std::time::Duration) -> Result<Timestamp, ()> { self.0.checked_sub(d.as_secs() as i64).map(Timestamp).ok_or(()) }
-        pub fn saturating_add(self, d: std::time::Duration) -> Timestamp { Timestamp(self.0.saturating_add(d.as_secs() as i64)) }
-        pub fn saturating_sub(self, d: std::time::Duration) -> Timestamp { Timestamp(self.0.saturating_sub(d.as_secs() as i64)) }
+        /// whole seconds since the epoch (rounds towards negative infinity for the instants used here, which are >= 0)
+        pub fn as_second(&self) -> i64 { self.0 >> 2 }
+        pub fn as_millisecond(&self) -> i64 { self.0 * 250 }
+        pub fn subsec_millisecond(&self) -> i32 { ((self.0 & 3) * 250) as i32 }
+        pub fn subsec_nanosecond(&self) -> i32 { ((self.0 & 3) as i32) * TICK_NANOS as i32 }
+        pub fn from_second(s: i64) -> Result<Timestamp, ()> { s.checked_mul(TICKS_PER_SEC).map(Timestamp).ok_or(()) }
+        pub fn from_millisecond(ms: i64) -> Result<Timestamp, ()> { Ok(Timestamp(ms / 250)) }
+        pub fn checked_add(self, d: std::time::Duration) -> Result<Timestamp, ()> { self.0.checked_add(verif_ticks(d)).map(Timestamp).ok_or(()) }
+        pub fn checked_sub(self, d: std::time::Duration) -> Result<Timestamp, ()> { self.0.checked_sub(verif_ticks(d)).map(Timestamp).ok_or(()) }
+        pub fn saturating_add(self, d: std::time::Duration) -> Timestamp { Timestamp(self.0.saturating_add(verif_ticks(d))) }
+        pub fn saturating_sub(self, d: std::time::Duration) -> Timestamp { Timestamp(self.0.saturating_sub(verif_ticks(d))) }
         pub fn duration_since(self, o: Timestamp) -> SignedDuration { SignedDuration(self.0 - o.0) }
         pub fn duration_until(self, o: Timestamp) -> SignedDuration { SignedDuration(o.0 - self.0) }
     }
     impl std::ops::Sub<std::time::Duration> for Timestamp {
         type Output = Timestamp;
-        fn sub(self, d: std::time::Duration) -> Timestamp { Timestamp(self.0 - d.as_secs() as i64) }
+        fn sub(self, d: std::time::Duration) -> Timestamp { Timestamp(self.0 - verif_ticks(d)) }
     }
     impl std::ops::AddAssign<std::time::Duration> for Timestamp {
-        fn add_assign(&mut self, d: std::time::Duration) { self.0 += d.as_secs() as i64 }
+        fn add_assign(&mut self, d: std::time::Duration) { self.0 += verif_ticks(d) }
     }
     impl std::ops::Add<std::time::Duration> for Timestamp {
         type Output = Timestamp;
-        fn add(self, d: std::time::Duration) -> Timestamp { Timestamp(self.0 + d.as_secs() as i64) }
+        fn add(self, d: std::time::Duration) -> Timestamp { Timestamp(self.0 + verif_ticks(d)) }
     }
     impl std::ops::Sub<Timestamp> for Timestamp {
         type Output = SignedDuration;
@@ -43,21 +65,22 @@ pub mod time {
     }
     impl TryFrom<SignedDuration> for std::time::Duration {
         type Error = ();
-        fn try_from(d: SignedDuration) -> Result<Self, ()> { if d.0 < 0 { Err(()) } else { Ok(std::time::Duration::from_secs(d.0 as u64)) } }
+        fn try_from(d: SignedDuration) -> Result<Self, ()> { if d.0 < 0 { Err(()) } else { Ok(verif_duration(d.0)) } }
     }
+    /// a signed span of time, in ticks
     #[derive(Clone, Copy, Debug, PartialEq, Eq, PartialOrd, Ord)]
     pub struct SignedDuration(pub i64);
     impl SignedDuration {
         pub const MAX: SignedDuration = SignedDuration(i64::MAX);
         pub const ZERO: SignedDuration = SignedDuration(0);
-        pub fn as_secs(&self) -> i64 { self.0 }
-        pub fn from_secs(s: i64) -> Self { SignedDuration(s) }
         pub fn is_negative(&self) -> bool { self.0 < 0 }
         pub fn is_zero(&self) -> bool { self.0 == 0 }
         pub fn is_positive(&self) -> bool { self.0 > 0 }
-        pub fn unsigned_abs(&self) -> std::time::Duration { std::time::Duration::from_secs(self.0.unsigned_abs()) }
+        pub fn unsigned_abs(&self) -> std::time::Duration { verif_duration(self.0.abs()) }
+        pub fn from_secs(s: i64) -> SignedDuration { SignedDuration(s * TICKS_PER_SEC) }
+        pub fn as_secs(&self) -> i64 { self.0 >> 2 }
     }
-    impl TryFrom<std::time::Duration> for SignedDuration { type Error = (); fn try_from(d: std::time::Duration) -> Result<Self, ()> { let s = d.as_secs(); if s > i64::MAX as u64 { Err(()) } else { Ok(SignedDuration(s as i64)) } } }
+    impl TryFrom<std::time::Duration> for SignedDuration { type Error = (); fn try_from(d: std::time::Duration) -> Result<Self, ()> { let s = d.as_secs(); if s > (i64::MAX / TICKS_PER_SEC) as u64 { Err(()) } else { Ok(SignedDuration(verif_ticks(d))) } } }
     #[derive(Clone, Copy, Debug, serde::Deserialize)]
     pub struct Span(pub i64);
     impl Span { pub fn is_negative(&self) -> bool { self.0 < 0 } pub fn is_zero(&self) -> bool { self.0 == 0 } }
